@@ -45,10 +45,23 @@ Definition c05_oracle (c out : sexp) : sexp :=
                          sexp_eqb (snd qa) (sRes sBlocks (Ok (scan secs c s e))))
               (combine qs answers)).
 
+(* Public-API stage: case = (9 b ((chrom start end) ...) ((chrom s e) ...) zoom): one value per block written by the
+   real writer, read by the real reader (short reads; a zoom query before every interval query on the same reader).
+   Expected answer of an interval query: the values that overlap the range, clipped, in order (a linear scan). *)
+Definition api_scan (secs : list (N * N * N)) (q : N * N * N) : sexp :=
+  let '(c, s, e) := q in
+  L [A 0%Z; sList (fun v => let '(_, st, en) := v in L [sN (N.max st s); sN (N.min en e)])
+                  (filter (fun v => let '(ch, st, en) := v in (ch =? c) && (s <? en) && (st <? e)) secs)].
+Definition c05_api_model (c : sexp) : sexp :=
+  let secs := getList get_query (nthS 2 c) in
+  let unknown := fun q : N * N * N => let '(ch, _, _) := q in negb (existsb (fun v => let '(c', _, _) := v in c' =? ch) secs) in
+  L [A 0%Z; A 0%Z; L []; sList (fun q => if unknown q then L [A 1%Z; A 1%Z] else api_scan secs q) (getList get_query (nthS 3 c))].
+Definition c05_api_oracle (c out : sexp) : sexp := sB (sexp_eqb out (c05_api_model c)).
+
 (* entry 0: model output; entry 1: oracle on (case, implementation output) *)
 Definition dispatch (k : Z) (arg : sexp) : sexp :=
   match k with
-  | 0 => c05_model arg
-  | 1 => c05_oracle (nthS 0 arg) (nthS 1 arg)
+  | 0 => if Z.eqb (getZ (nthS 0 arg)) 9 then c05_api_model arg else c05_model arg
+  | 1 => if Z.eqb (getZ (nthS 0 (nthS 0 arg))) 9 then c05_api_oracle (nthS 0 arg) (nthS 1 arg) else c05_oracle (nthS 0 arg) (nthS 1 arg)
   | _ => L [A (-1)%Z]
   end%Z.
